@@ -527,7 +527,7 @@ class BaseCurve(Intface_BaseCurve):
                 raise ValueError("Cannot update knotvector: a weight vanishes")
             temp_curve.ctrlpoints = [pt / wi for pt, wi in zip(points, weights)]
             temp_curve.weights = weights
-        if tolerance and error > tolerance:
+        if tolerance is not None and error > tolerance:
             error_msg = "Cannot update knotvector cause error is "
             error_msg += f" {float(error):.2e} > {tolerance}"
             raise ValueError(error_msg)
